@@ -195,7 +195,7 @@ def seek_trait():
             # the only successful seeks beyond the end of the keystream (smod - 1 blocks) are those INTO the block after the last one
             ('beyond_end_only_into_last_block', ('C11',), 'r is Ok ==> pos.sn_val() <= (old(self).smod() - 1) * old(self).sbs() || (pos.sn_val() / old(self).sbs() == old(self).smod() - 1 && pos.sn_val() % old(self).sbs() != 0)'),
             # C11: a seek beyond the end of the keystream must be an error, not a wrap
-            ('ok_only_within_keystream', ('C11',), 'r is Ok ==> pos.sn_val() <= (old(self).smod() - 1) * old(self).sbs()')]),
+            ('ok_only_within_keystream', ('C11',), 'r is Ok ==> pos.sn_val() <= (old(self).smod() - 1) * old(self).sbs()', True)]),
     }, drop_fns=['current_pos', 'seek'])
 
 
